@@ -349,7 +349,7 @@ class Model(EconomicObject):
             elif group_of_series == 'initial': # pragma: no cover
                 series_holder = self.EquationSolver.TimeSeriesInitialSteadyState
             if cutoff is None:
-                val = series_holder[series]
+                val = list(series_holder[series])
             else:
                 val = series_holder[series][0:(cutoff + 1)]
         except KeyError:
